@@ -194,3 +194,13 @@ def loops(masked_body):
             i += 1
         res.append((lm.start(), i, kw))
     return res
+
+
+def find_enum(text, name):
+    m = mask(text)
+    sm = re.search(r"(?:pub(?:\([^)]*\))?\s+)?enum\s+%s\b[^;{]*\{" % re.escape(name), m)
+    if not sm:
+        raise Undecided("lost anchor: enum %s" % name)
+    o = sm.end() - 1
+    c = match_brace(m, o)
+    return text[sm.start():c + 1]
